@@ -570,12 +570,14 @@ theorem calm_reclose {C : Cfg} (w : WF C) (n : Nat) (hn : n < C.nets.length) (x 
   · exact ⟨szz.conn, szz.secConn, szz.cbOpen, szz.check, by show (z.failedSecs.set n []).length = _; simp [szz.failedSecs]⟩
 
 /-- generic tail of a manual control loop on a calm state -/
-theorem calm_core {C : Cfg} (w : WF C) (n : Nat) (hn : n < C.nets.length) (s1 : St) (hc : Calm C s1) (g : St → St)
+theorem calm_core {C : Cfg} (w : WF C) (n : Nat) (hn : n < C.nets.length) (s1 : St) (hc : Calm C s1) (chk : St → St)
+    (hchk : ∀ a, (∀ l, l < C.lines.length → gb a.failed l = false) → (∀ k, k < C.secs.length → gb a.secConn k = true) → chk a = a)
+    (g : St → St)
     (hg : ∀ a, g a = { a with pTimer := (g a).pTimer }) (hgl : ∀ a, (g a).pTimer.length = a.pTimer.length) :
     let r := checkBreakerManually C
       (if gb (if gb s1.cbOpen (C.nets.getD n default).cb && decide (gr s1.timer n ≤ 0) then { s1 with check := s1.check.set n true } else s1).check n
-       then { g (checkLinesManually C (if gb s1.cbOpen (C.nets.getD n default).cb && decide (gr s1.timer n ≤ 0) then { s1 with check := s1.check.set n true } else s1) n) with
-              check := (g (checkLinesManually C (if gb s1.cbOpen (C.nets.getD n default).cb && decide (gr s1.timer n ≤ 0) then { s1 with check := s1.check.set n true } else s1) n)).check.set n false }
+       then { g (chk (if gb s1.cbOpen (C.nets.getD n default).cb && decide (gr s1.timer n ≤ 0) then { s1 with check := s1.check.set n true } else s1)) with
+              check := (g (chk (if gb s1.cbOpen (C.nets.getD n default).cb && decide (gr s1.timer n ≤ 0) then { s1 with check := s1.check.set n true } else s1))).check.set n false }
        else (if gb s1.cbOpen (C.nets.getD n default).cb && decide (gr s1.timer n ≤ 0) then { s1 with check := s1.check.set n true } else s1)) n
     Calm C r ∧ r.timer = s1.timer ∧
     (gb s1.cbOpen (C.nets.getD n default).cb = true → gr s1.timer n ≤ 0 →
@@ -584,8 +586,8 @@ theorem calm_core {C : Cfg} (w : WF C) (n : Nat) (hn : n < C.nets.length) (s1 : 
   intro r
   have hr : r = checkBreakerManually C
       (if gb (if gb s1.cbOpen (C.nets.getD n default).cb && decide (gr s1.timer n ≤ 0) then { s1 with check := s1.check.set n true } else s1).check n
-       then { g (checkLinesManually C (if gb s1.cbOpen (C.nets.getD n default).cb && decide (gr s1.timer n ≤ 0) then { s1 with check := s1.check.set n true } else s1) n) with
-              check := (g (checkLinesManually C (if gb s1.cbOpen (C.nets.getD n default).cb && decide (gr s1.timer n ≤ 0) then { s1 with check := s1.check.set n true } else s1) n)).check.set n false }
+       then { g (chk (if gb s1.cbOpen (C.nets.getD n default).cb && decide (gr s1.timer n ≤ 0) then { s1 with check := s1.check.set n true } else s1)) with
+              check := (g (chk (if gb s1.cbOpen (C.nets.getD n default).cb && decide (gr s1.timer n ≤ 0) then { s1 with check := s1.check.set n true } else s1))).check.set n false }
        else (if gb s1.cbOpen (C.nets.getD n default).cb && decide (gr s1.timer n ≤ 0) then { s1 with check := s1.check.set n true } else s1)) n := rfl
   by_cases hcond : gb s1.cbOpen (C.nets.getD n default).cb = true ∧ gr s1.timer n ≤ 0
   · have hif : (gb s1.cbOpen (C.nets.getD n default).cb && decide (gr s1.timer n ≤ 0)) = true := by
@@ -596,7 +598,7 @@ theorem calm_core {C : Cfg} (w : WF C) (n : Nat) (hn : n < C.nets.length) (s1 : 
     have hck : gb s2.check n = true := gb_set_self _ _ _ (by rw [hc.sz.check]; exact hn)
     rw [hck] at hr
     simp only [if_true] at hr
-    rw [checkLines_calm w n hn s2 hc.nofail hc.secs] at hr
+    rw [hchk s2 hc.nofail hc.secs] at hr
     set s3 : St := { g s2 with check := (g s2).check.set n false } with hs3
     have hgs := hg s2
     have e3 : s3 = { s1 with pTimer := (g s2).pTimer, check := (s1.check.set n true).set n false } := by
@@ -688,7 +690,7 @@ theorem distLoop_calm {C : Cfg} (w : WF C) (n : Nat) (hn : n < C.nets.length) (x
   set s1 : St := { x with timer := x.timer.set n (tick (gr x.timer n) dt) } with hs1
   have c1 : Calm C s1 := ⟨hc.nofail, hc.secs, hc.nofs, hc.nonf, hc.chk, by simp [hs1, hc.tlen], hc.plen, ⟨hc.sz.conn, hc.sz.secConn, hc.sz.cbOpen, hc.sz.check, hc.sz.failedSecs⟩⟩
   have ht1 : gr s1.timer n = t := gr_set_self _ _ _ (by rw [hc.tlen]; exact hn)
-  obtain ⟨k1, k2, k3, k4⟩ := calm_core w n hn s1 c1
+  obtain ⟨k1, k2, k3, k4⟩ := calm_core w n hn s1 c1 (fun a => checkLinesManually C a n) (fun a h1 h2 => checkLines_calm w n hn a h1 h2)
     (fun a => (C.nets.getD n default).children.foldl (fun (s : St) m =>
         if gb s.cbOpen (C.nets.getD m default).cb then { s with pTimer := s.pTimer.set m (gr s.timer n) } else s) a)
     (fun a => childFold_shape C n _ a) (fun a => (childFold_tm C n _ a).2.1)
@@ -715,7 +717,75 @@ theorem mgLoop_calm {C : Cfg} (w : WF C) (n : Nat) (hn : n < C.nets.length) (x :
   set s1 : St := { x with timer := x.timer.set n t, pTimer := x.pTimer.set n (tick (gr x.pTimer n) dt) } with hs1
   have c1 : Calm C s1 := ⟨hc.nofail, hc.secs, hc.nofs, hc.nonf, hc.chk, by simp [hs1, hc.tlen], by simp [hs1, hc.plen], ⟨hc.sz.conn, hc.sz.secConn, hc.sz.cbOpen, hc.sz.check, hc.sz.failedSecs⟩⟩
   have ht1 : gr s1.timer n = t := gr_set_self _ _ _ (by rw [hc.tlen]; exact hn)
-  obtain ⟨k1, k2, k3, k4⟩ := calm_core w n hn s1 c1 (fun a => a) (fun a => rfl) (fun a => rfl)
+  obtain ⟨k1, k2, k3, k4⟩ := calm_core w n hn s1 c1 (fun a => checkLinesManually C a n) (fun a h1 h2 => checkLines_calm w n hn a h1 h2) (fun a => a) (fun a => rfl) (fun a => rfl)
+  rw [← hr] at k1 k2 k3 k4
+  refine ⟨k1, k2, ?_, openAfter_of w n hn x s1 r t hc.sz rfl ht1 (fun a b => (k3 a b).2) k4⟩
+  by_cases hcond : gb s1.cbOpen (C.nets.getD n default).cb = true ∧ gr s1.timer n ≤ 0
+  · rw [(k3 hcond.1 hcond.2).1]
+  · rw [k4 hcond]
+
+/-- the sensor check of a calm state does nothing -/
+theorem checkSensors_calm {C : Cfg} (w : WF C) (n : Nat) (hn : n < C.nets.length) (cm : Comm) (x : St)
+    (hnf : ∀ l, l < C.lines.length → gb x.failed l = false) (hsec : ∀ k, k < C.secs.length → gb x.secConn k = true) :
+    checkSensors C x n cm = x := by
+  rw [checkSensors_eq]
+  have h1 : ((netOf C n).secs.filter (fun k => gb x.secConn k)).foldl (flagStepA C n cm) x = x := by
+    apply foldl_fixed
+    intro k hk
+    have hk' := (List.mem_filter.mp hk).1
+    have : anyFailed x (secOf C k).lines = false :=
+      (anyFailed_false_iff C x k).mpr (fun l hl => hnf l (w.sec_lines n hn k hk' l hl).1)
+    unfold flagStepA
+    simp only
+    rw [show C.secs.getD k default = secOf C k from rfl, this]
+    simp
+  rw [h1]
+  have h2 : (netOf C n).secs.filter (fun k => !gb x.secConn k) = [] := by
+    rw [List.filter_eq_nil_iff]
+    intro k hk
+    rw [hsec k (w.sec_lt n hn k hk)]; simp
+  rw [h2]; rfl
+
+theorem distLoopA_calm {C : Cfg} (w : WF C) (n : Nat) (hn : n < C.nets.length) (x : St) (hc : Calm C x) (dt : ℚ) (cm : Comm) :
+    let r := distLoopA C x n dt cm
+    let t := tick (gr x.timer n) dt
+    Calm C r ∧ r.timer = x.timer.set n t ∧
+    (∀ m, gr r.pTimer m = gr x.pTimer m ∨ (t ≤ 0 ∧ gr r.pTimer m = t)) ∧ OpenAfter C x r n t := by
+  intro r t
+  have hr : r = distLoopA C x n dt cm := rfl
+  unfold Relsad.Control.distLoopA at hr
+  simp only [] at hr
+  set s1 : St := { x with timer := x.timer.set n (tick (gr x.timer n) dt) } with hs1
+  have c1 : Calm C s1 := ⟨hc.nofail, hc.secs, hc.nofs, hc.nonf, hc.chk, by simp [hs1, hc.tlen], hc.plen, ⟨hc.sz.conn, hc.sz.secConn, hc.sz.cbOpen, hc.sz.check, hc.sz.failedSecs⟩⟩
+  have ht1 : gr s1.timer n = t := gr_set_self _ _ _ (by rw [hc.tlen]; exact hn)
+  obtain ⟨k1, k2, k3, k4⟩ := calm_core w n hn s1 c1 (fun a => checkSensors C a n cm) (fun a h1 h2 => checkSensors_calm w n hn cm a h1 h2)
+    (fun a => (C.nets.getD n default).children.foldl (fun (s : St) m =>
+        if gb s.cbOpen (C.nets.getD m default).cb then { s with pTimer := s.pTimer.set m (gr s.timer n) } else s) a)
+    (fun a => childFold_shape C n _ a) (fun a => (childFold_tm C n _ a).2.1)
+  rw [← hr] at k1 k2 k3 k4
+  refine ⟨k1, k2, ?_, openAfter_of w n hn x s1 r t hc.sz rfl ht1 (fun a b => (k3 a b).2) k4⟩
+  intro m
+  by_cases hcond : gb s1.cbOpen (C.nets.getD n default).cb = true ∧ gr s1.timer n ≤ 0
+  · rw [(k3 hcond.1 hcond.2).1]
+    rcases (childFold_tm C n (C.nets.getD n default).children { s1 with check := s1.check.set n true }).2.2 m with h | ⟨_, h⟩
+    · exact Or.inl h
+    · right
+      rw [h]
+      exact ⟨by rw [← ht1]; exact hcond.2, ht1⟩
+  · rw [k4 hcond]; exact Or.inl rfl
+
+theorem mgLoopA_calm {C : Cfg} (w : WF C) (n : Nat) (hn : n < C.nets.length) (x : St) (hc : Calm C x) (dt : ℚ) (cm : Comm) :
+    let r := mgLoopA C x n dt cm
+    let t := if gr x.pTimer n > tick (gr x.timer n) dt then gr x.pTimer n else tick (gr x.timer n) dt
+    Calm C r ∧ r.timer = x.timer.set n t ∧ r.pTimer = x.pTimer.set n (tick (gr x.pTimer n) dt) ∧ OpenAfter C x r n t := by
+  intro r t
+  have hr : r = mgLoopA C x n dt cm := rfl
+  unfold Relsad.Control.mgLoopA at hr
+  simp only [] at hr
+  set s1 : St := { x with timer := x.timer.set n t, pTimer := x.pTimer.set n (tick (gr x.pTimer n) dt) } with hs1
+  have c1 : Calm C s1 := ⟨hc.nofail, hc.secs, hc.nofs, hc.nonf, hc.chk, by simp [hs1, hc.tlen], by simp [hs1, hc.plen], ⟨hc.sz.conn, hc.sz.secConn, hc.sz.cbOpen, hc.sz.check, hc.sz.failedSecs⟩⟩
+  have ht1 : gr s1.timer n = t := gr_set_self _ _ _ (by rw [hc.tlen]; exact hn)
+  obtain ⟨k1, k2, k3, k4⟩ := calm_core w n hn s1 c1 (fun a => checkSensors C a n cm) (fun a h1 h2 => checkSensors_calm w n hn cm a h1 h2) (fun a => a) (fun a => rfl) (fun a => rfl)
   rw [← hr] at k1 k2 k3 k4
   refine ⟨k1, k2, ?_, openAfter_of w n hn x s1 r t hc.sz rfl ht1 (fun a b => (k3 a b).2) k4⟩
   by_cases hcond : gb s1.cbOpen (C.nets.getD n default).cb = true ∧ gr s1.timer n ≤ 0
@@ -791,15 +861,28 @@ theorem run_foldl {C : Cfg} (f : St → Nat → St) (I : St → Prop) (Good : St
     · rw [h]; exact p2 a g1
     · exact g2 n h
 
-theorem calm_step {C : Cfg} (w : WF C) (w2 : WF2 C) (x : St) (P B dt : ℚ) (hx : Run C x P B) (hdt : 0 ≤ dt) (hP : 0 ≤ P) (hPB : P ≤ B) :
-    Run C (step C x dt) (max (P - dt) 0) (max P (B - dt)) ∧
-    (∀ c, gb (step C x dt).cbOpen c = true → gb x.cbOpen c = true) ∧
-    (B ≤ 0 → ∀ c, c < C.cbLine.length → gb (step C x dt).cbOpen c = false) := by
+/-- an increment built from loops that behave on calm states like the manual ones -/
+theorem calm_stepG {C : Cfg} (w2 : WF2 C) (dl ml : St → Nat → St) (dt : ℚ)
+    (hdl : ∀ n, n < C.nets.length → ∀ x, Calm C x →
+      Calm C (dl x n) ∧ (dl x n).timer = x.timer.set n (tick (gr x.timer n) dt) ∧
+      (∀ m, gr (dl x n).pTimer m = gr x.pTimer m ∨ (tick (gr x.timer n) dt ≤ 0 ∧ gr (dl x n).pTimer m = tick (gr x.timer n) dt)) ∧
+      OpenAfter C x (dl x n) n (tick (gr x.timer n) dt))
+    (hml : ∀ n, n < C.nets.length → ∀ x, Calm C x →
+      Calm C (ml x n) ∧
+      (ml x n).timer = x.timer.set n (if gr x.pTimer n > tick (gr x.timer n) dt then gr x.pTimer n else tick (gr x.timer n) dt) ∧
+      (ml x n).pTimer = x.pTimer.set n (tick (gr x.pTimer n) dt) ∧
+      OpenAfter C x (ml x n) n (if gr x.pTimer n > tick (gr x.timer n) dt then gr x.pTimer n else tick (gr x.timer n) dt))
+    (x : St) (P B : ℚ) (hx : Run C x P B) (hdt : 0 ≤ dt) (hP : 0 ≤ P) (hPB : P ≤ B) :
+    let r := ((List.range C.nets.length).filter (fun n => isMg C n)).foldl ml
+      (((List.range C.nets.length).filter (fun n => !isMg C n)).foldl dl
+        ((List.range C.lines.length).foldl (fun s l => lineUpdate C s l dt) x))
+    Run C r (max (P - dt) 0) (max P (B - dt)) ∧
+    (∀ c, gb r.cbOpen c = true → gb x.cbOpen c = true) ∧
+    (B ≤ 0 → ∀ c, c < C.cbLine.length → gb r.cbOpen c = false) := by
+  intro r
   have hB : 0 ≤ B := le_trans hP hPB
   have hB' : 0 ≤ max P (B - dt) := le_trans hP (le_max_left _ _)
   have hP' : (0 : ℚ) ≤ max (P - dt) 0 := le_max_right _ _
-  unfold Relsad.Control.step
-  simp only []
   -- repairs: nothing to do
   obtain ⟨c1, t1, p1, b1⟩ := Calm.lineUpdates (C := C) dt (List.range C.lines.length) (fun l hl => List.mem_range.mp hl) x hx.calm
   set x1 := (List.range C.lines.length).foldl (fun s l => lineUpdate C s l dt) x with hx1
@@ -808,11 +891,11 @@ theorem calm_step {C : Cfg} (w : WF C) (w2 : WF2 C) (x : St) (P B dt : ℚ) (hx 
   have i1 : I x1 := ⟨⟨c1, fun m hm => by rw [p1]; exact hx.nm m hm, fun m => by rw [p1, t1]; exact hx.bd m⟩, fun c hc => by rw [b1] at hc; exact hc⟩
   -- distribution controllers
   have dstep : ∀ y n, n ∈ (List.range C.nets.length).filter (fun n => !isMg C n) → I y →
-      I (distLoop C y n dt) ∧ GoodD C B (max P (B - dt)) (distLoop C y n dt) n ∧
-      ∀ m, GoodD C B (max P (B - dt)) y m → GoodD C B (max P (B - dt)) (distLoop C y n dt) m := by
+      I (dl y n) ∧ GoodD C B (max P (B - dt)) (dl y n) n ∧
+      ∀ m, GoodD C B (max P (B - dt)) y m → GoodD C B (max P (B - dt)) (dl y n) m := by
     intro y n hn hy
     have hn' : n < C.nets.length := List.mem_range.mp (List.mem_filter.mp hn).1
-    obtain ⟨k1, k2, k3, k4⟩ := distLoop_calm w n hn' y hy.1.calm dt
+    obtain ⟨k1, k2, k3, k4⟩ := hdl n hn' y hy.1.calm
     have htk : tick (gr y.timer n) dt ≤ max P (B - dt) := tick_le' (hy.1.bd n).2 hP
     have htB : tick (gr y.timer n) dt ≤ B := tick_le (hy.1.bd n).2 hB hdt
     refine ⟨⟨⟨k1, ?_, ?_⟩, fun c hc => hy.2 c (k4 c hc).1⟩, ⟨?_, ?_⟩, ?_⟩
@@ -830,7 +913,7 @@ theorem calm_step {C : Cfg} (w : WF C) (w2 : WF2 C) (x : St) (P B dt : ℚ) (hx 
         · exact (hy.1.bd m).2
     · rw [k2, gr_set_self _ _ _ (by rw [hy.1.calm.tlen]; exact hn')]; exact htk
     · intro hB0
-      cases hx' : gb (distLoop C y n dt).cbOpen (netOf C n).cb
+      cases hx' : gb (dl y n).cbOpen (netOf C n).cb
       · rfl
       · exfalso
         have := (k4 _ hx').2 rfl
@@ -841,21 +924,21 @@ theorem calm_step {C : Cfg} (w : WF C) (w2 : WF2 C) (x : St) (P B dt : ℚ) (hx 
       · rw [k2, gr_set]; split_ifs
         · exact htk
         · exact gm.1
-      · cases hx' : gb (distLoop C y n dt).cbOpen (netOf C m).cb
+      · cases hx' : gb (dl y n).cbOpen (netOf C m).cb
         · rfl
         · have hh := (k4 _ hx').1
           rw [gm.2 hB0] at hh; exact absurd hh (by simp)
-  obtain ⟨i2, gd2, _⟩ := run_foldl (C := C) (fun s n => distLoop C s n dt) I (GoodD C B (max P (B - dt))) _ dstep x1 i1
-  set x2 := ((List.range C.nets.length).filter (fun n => !isMg C n)).foldl (fun s n => distLoop C s n dt) x1 with hx2
+  obtain ⟨i2, gd2, _⟩ := run_foldl (C := C) dl I (GoodD C B (max P (B - dt))) _ dstep x1 i1
+  set x2 := ((List.range C.nets.length).filter (fun n => !isMg C n)).foldl dl x1 with hx2
   -- microgrid controllers
   have mstep : ∀ y n, n ∈ (List.range C.nets.length).filter (fun n => isMg C n) → I y →
-      I (mgLoop C y n dt) ∧ (GoodD C B (max P (B - dt)) (mgLoop C y n dt) n ∧ gr (mgLoop C y n dt).pTimer n ≤ max (P - dt) 0) ∧
+      I (ml y n) ∧ (GoodD C B (max P (B - dt)) (ml y n) n ∧ gr (ml y n).pTimer n ≤ max (P - dt) 0) ∧
       ∀ m, (GoodD C B (max P (B - dt)) y m ∧ (isMg C m = true → gr y.pTimer m ≤ max (P - dt) 0)) →
-           (GoodD C B (max P (B - dt)) (mgLoop C y n dt) m ∧ (isMg C m = true → gr (mgLoop C y n dt).pTimer m ≤ max (P - dt) 0)) := by
+           (GoodD C B (max P (B - dt)) (ml y n) m ∧ (isMg C m = true → gr (ml y n).pTimer m ≤ max (P - dt) 0)) := by
     intro y n hn hy
     have hn' : n < C.nets.length := List.mem_range.mp (List.mem_filter.mp hn).1
     have hmg : isMg C n = true := (List.mem_filter.mp hn).2
-    obtain ⟨k1, k2, k3, k4⟩ := mgLoop_calm w n hn' y hy.1.calm dt
+    obtain ⟨k1, k2, k3, k4⟩ := hml n hn' y hy.1.calm
     set t := (if gr y.pTimer n > tick (gr y.timer n) dt then gr y.pTimer n else tick (gr y.timer n) dt) with ht
     have htk : t ≤ max P (B - dt) := by
       rw [ht]; split_ifs
@@ -870,10 +953,10 @@ theorem calm_step {C : Cfg} (w : WF C) (w2 : WF2 C) (x : St) (P B dt : ℚ) (hx 
       · exact le_trans (by linarith [(hy.1.bd n).1]) (le_max_left _ _)
       · exact le_max_right _ _
     have hpP : tick (gr y.pTimer n) dt ≤ P := tick_le (hy.1.bd n).1 hP hdt
-    have gself : GoodD C B (max P (B - dt)) (mgLoop C y n dt) n := by
+    have gself : GoodD C B (max P (B - dt)) (ml y n) n := by
       refine ⟨by rw [k2, gr_set_self _ _ _ (by rw [hy.1.calm.tlen]; exact hn')]; exact htk, ?_⟩
       intro hB0
-      cases hx' : gb (mgLoop C y n dt).cbOpen (netOf C n).cb
+      cases hx' : gb (ml y n).cbOpen (netOf C n).cb
       · rfl
       · exfalso
         have hpos := (k4 _ hx').2 rfl
@@ -900,19 +983,19 @@ theorem calm_step {C : Cfg} (w : WF C) (w2 : WF2 C) (x : St) (P B dt : ℚ) (hx 
       · rw [k2, gr_set]; split_ifs
         · exact htk
         · exact gm.1.1
-      · cases hx' : gb (mgLoop C y n dt).cbOpen (netOf C m).cb
+      · cases hx' : gb (ml y n).cbOpen (netOf C m).cb
         · rfl
         · have hh := (k4 _ hx').1
           rw [gm.1.2 hB0] at hh; exact absurd hh (by simp)
       · rw [k3, gr_set]; split_ifs
         · exact hpt
         · exact gm.2 hm
-  obtain ⟨i3, gm3, keep3⟩ := run_foldl (C := C) (fun s n => mgLoop C s n dt) I
+  obtain ⟨i3, gm3, keep3⟩ := run_foldl (C := C) ml I
     (fun y m => GoodD C B (max P (B - dt)) y m ∧ (isMg C m = true → gr y.pTimer m ≤ max (P - dt) 0)) _
     (fun y n hn hy => by
       obtain ⟨a, b, c⟩ := mstep y n hn hy
       exact ⟨a, ⟨b.1, fun _ => b.2⟩, c⟩) x2 i2
-  set x3 := ((List.range C.nets.length).filter (fun n => isMg C n)).foldl (fun s n => mgLoop C s n dt) x2 with hx3
+  set x3 := ((List.range C.nets.length).filter (fun n => isMg C n)).foldl ml x2 with hx3
   -- every network has been served
   have served : ∀ n, n < C.nets.length → GoodD C B (max P (B - dt)) x3 n ∧ gr x3.pTimer n ≤ max (P - dt) 0 := by
     intro n hn
@@ -938,6 +1021,20 @@ theorem calm_step {C : Cfg} (w : WF C) (w2 : WF2 C) (x : St) (P B dt : ℚ) (hx 
     obtain ⟨n, hn, hcb⟩ := w2.cb_owned c hc
     rw [← hcb]
     exact (served n hn).1.2 hB0
+
+theorem calm_step {C : Cfg} (w : WF C) (w2 : WF2 C) (x : St) (P B dt : ℚ) (hx : Run C x P B) (hdt : 0 ≤ dt) (hP : 0 ≤ P) (hPB : P ≤ B) :
+    Run C (step C x dt) (max (P - dt) 0) (max P (B - dt)) ∧
+    (∀ c, gb (step C x dt).cbOpen c = true → gb x.cbOpen c = true) ∧
+    (B ≤ 0 → ∀ c, c < C.cbLine.length → gb (step C x dt).cbOpen c = false) :=
+  calm_stepG w2 (fun s n => distLoop C s n dt) (fun s n => mgLoop C s n dt) dt
+    (fun n hn y hy => distLoop_calm w n hn y hy dt) (fun n hn y hy => mgLoop_calm w n hn y hy dt) x P B hx hdt hP hPB
+
+theorem calm_stepA {C : Cfg} (w : WF C) (w2 : WF2 C) (x : St) (P B dt : ℚ) (cm : Comm) (hx : Run C x P B) (hdt : 0 ≤ dt) (hP : 0 ≤ P) (hPB : P ≤ B) :
+    Run C (stepA C x dt cm) (max (P - dt) 0) (max P (B - dt)) ∧
+    (∀ c, gb (stepA C x dt cm).cbOpen c = true → gb x.cbOpen c = true) ∧
+    (B ≤ 0 → ∀ c, c < C.cbLine.length → gb (stepA C x dt cm).cbOpen c = false) :=
+  calm_stepG w2 (fun s n => distLoopA C s n dt cm) (fun s n => mgLoopA C s n dt cm) dt
+    (fun n hn y hy => distLoopA_calm w n hn y hy dt cm) (fun n hn y hy => mgLoopA_calm w n hn y hy dt cm) x P B hx hdt hP hPB
 
 theorem Run.weaken {C : Cfg} {x : St} {P B P' B' : ℚ} (h : Run C x P B) (hP : P ≤ P') (hB : B ≤ B') : Run C x P' B' :=
   ⟨h.calm, h.nm, fun m => ⟨le_trans (h.bd m).1 hP, le_trans (h.bd m).2 hB⟩⟩
@@ -1027,5 +1124,209 @@ theorem gb_false_of_all_not (l : List Bool) (h : l.all (!·) = true) (i : Nat) :
     have := (List.all_eq_true.mp h) l[i] (List.getElem_mem hi)
     simpa using this
   · rw [List.getD_eq_getElem?_getD, List.getElem?_eq_none (Nat.le_of_not_lt hi)]; rfl
+
+/-! ### mixed manual / ICT-based histories -/
+
+/-- timer vectors have the right length and the parent timer of a network that is not a microgrid is never started
+(every control mode) -/
+structure TL (C : Cfg) (s : St) : Prop where
+  tlen : s.timer.length = C.nets.length
+  plen : s.pTimer.length = C.nets.length
+  dist : ∀ m, isMg C m = false → gr s.pTimer m ≤ 0
+
+theorem TL.congr {C : Cfg} {s s' : St} (h : TL C s) (h1 : s'.timer.length = s.timer.length) (h2 : s'.pTimer = s.pTimer) : TL C s' :=
+  ⟨h1.trans h.tlen, by rw [h2]; exact h.plen, fun m hm => by rw [h2]; exact h.dist m hm⟩
+
+theorem TL.init (C : Cfg) : TL C (St.init C) :=
+  ⟨by simp [St.init], by simp [St.init], fun m _ => by rw [show gr (St.init C).pTimer m = 0 from gr_map_const _ _]⟩
+
+theorem TB.tl {C : Cfg} {s : St} (h : TB C s) : TL C s := ⟨h.tlen, h.plen, h.dist⟩
+
+theorem flagStepA_timer (C : Cfg) (n : Nat) (cm : Comm) (s : St) (k : Nat) :
+    (flagStepA C n cm s k).timer.length = s.timer.length ∧ (flagStepA C n cm s k).pTimer = s.pTimer := by
+  have rf : ∀ (T : ℚ) (ls : List Nat) (x : St),
+      (ls.foldl (fun (s : St) l => { s with rem := s.rem.set l (gr s.rem l + T) }) x).pTimer = x.pTimer := by
+    intro T ls
+    induction ls with
+    | nil => intro x; rfl
+    | cons a as ih => intro x; simp only [List.foldl_cons]; exact ih _
+  unfold flagStepA
+  simp only
+  by_cases hf : anyFailed s (C.secs.getD k default).lines = true
+  · rw [if_pos hf, remFold_timer, rf]; simp
+  · rw [if_neg hf]; exact ⟨rfl, rfl⟩
+
+theorem tl_checkG {C : Cfg} (n : Nat) (f : St → Nat → St)
+    (hf : ∀ s k, (f s k).timer.length = s.timer.length ∧ (f s k).pTimer = s.pTimer) (s : St) (h : TL C s) (ks ks' : List Nat) :
+    TL C (ks'.foldl (recoStep C n) (ks.foldl f s)) := by
+  have key : ∀ (ks : List Nat) (x : St), TL C x → TL C (ks.foldl f x) := by
+    intro ks
+    induction ks with
+    | nil => intro x hx; exact hx
+    | cons a as ih => intro x hx; simp only [List.foldl_cons]; exact ih _ (hx.congr (hf x a).1 (hf x a).2)
+  have h2 := tm_foldl_eq (recoStep C n) (tm_recoStep C n) ks' (ks.foldl f s)
+  exact (key ks s h).congr (by rw [h2.1]) h2.2
+
+theorem TL.checkLines {C : Cfg} {s : St} (h : TL C s) (n : Nat) : TL C (checkLinesManually C s n) := by
+  rw [checkLinesManually_eq]
+  exact tl_checkG n (flagStep C n) (fun s k => ⟨by rw [flagStep_timer]; split_ifs <;> simp, tm_flagStep_pTimer C n s k⟩) s h _ _
+
+theorem TL.checkSens {C : Cfg} {s : St} (h : TL C s) (n : Nat) (cm : Comm) : TL C (checkSensors C s n cm) := by
+  rw [checkSensors_eq]
+  exact tl_checkG n (flagStepA C n cm) (flagStepA_timer C n cm) s h _ _
+
+theorem TL.loopCore {C : Cfg} (n : Nat) (s1 : St) (t1 : TL C s1) (chk : St → St) (hchk : ∀ a, TL C a → TL C (chk a)) (g : St → St)
+    (hg : ∀ a, TL C a → TL C (g a)) :
+    TL C (checkBreakerManually C
+      (if gb (if gb s1.cbOpen (C.nets.getD n default).cb && decide (gr s1.timer n ≤ 0) then { s1 with check := s1.check.set n true } else s1).check n
+       then { g (chk (if gb s1.cbOpen (C.nets.getD n default).cb && decide (gr s1.timer n ≤ 0) then { s1 with check := s1.check.set n true } else s1)) with
+              check := (g (chk (if gb s1.cbOpen (C.nets.getD n default).cb && decide (gr s1.timer n ≤ 0) then { s1 with check := s1.check.set n true } else s1))).check.set n false }
+       else (if gb s1.cbOpen (C.nets.getD n default).cb && decide (gr s1.timer n ≤ 0) then { s1 with check := s1.check.set n true } else s1)) n) := by
+  set s2 : St := (if gb s1.cbOpen (C.nets.getD n default).cb && decide (gr s1.timer n ≤ 0) then { s1 with check := s1.check.set n true } else s1) with hs2
+  have t2 : TL C s2 := by
+    rw [hs2]; split_ifs
+    · exact t1.congr rfl rfl
+    · exact t1
+  have hb := tm_checkBreakerManually C
+      (if gb s2.check n then { g (chk s2) with check := (g (chk s2)).check.set n false } else s2) n
+  refine TL.congr ?_ (by rw [hb.1]) hb.2
+  split_ifs
+  · exact (hg _ (hchk _ t2)).congr rfl rfl
+  · exact t2
+
+theorem tl_childFold {C : Cfg} (w2 : WF2 C) (n : Nat) (hn : n < C.nets.length) (a : St) (ha : TL C a) :
+    TL C ((C.nets.getD n default).children.foldl (fun (s : St) m =>
+        if gb s.cbOpen (C.nets.getD m default).cb then { s with pTimer := s.pTimer.set m (gr s.timer n) } else s) a) := by
+  obtain ⟨e1, e2, e3⟩ := childFold_tm C n (C.nets.getD n default).children a
+  refine ⟨by rw [e1]; exact ha.tlen, by rw [e2]; exact ha.plen, ?_⟩
+  intro m hm
+  rcases e3 m with h' | ⟨hin, _⟩
+  · rw [h']; exact ha.dist m hm
+  · rw [w2.children_mg n hn m hin] at hm; exact absurd hm (by simp)
+
+theorem tl_mgStart {C : Cfg} {s : St} (h : TL C s) (n : Nat) (hmg : isMg C n = true) (t p : ℚ) :
+    TL C ({ s with timer := s.timer.set n t, pTimer := s.pTimer.set n p } : St) := by
+  refine ⟨by simp [h.tlen], by simp [h.plen], ?_⟩
+  intro m hm
+  show gr (s.pTimer.set n p) m ≤ 0
+  rw [gr_set]; split_ifs with hc
+  · rw [← hc.1, hmg] at hm; exact absurd hm (by simp)
+  · exact h.dist m hm
+
+theorem TL.distLoop {C : Cfg} {s : St} (w2 : WF2 C) (h : TL C s) (n : Nat) (hn : n < C.nets.length) (dt : ℚ) : TL C (distLoop C s n dt) := by
+  unfold Relsad.Control.distLoop
+  simp only []
+  have t1 : TL C { s with timer := s.timer.set n (tick (gr s.timer n) dt) } := h.congr (by simp) rfl
+  exact TL.loopCore n _ t1 (fun a => checkLinesManually C a n) (fun a ha => ha.checkLines n) _ (fun a ha => tl_childFold w2 n hn a ha)
+
+theorem TL.distLoopA {C : Cfg} {s : St} (w2 : WF2 C) (h : TL C s) (n : Nat) (hn : n < C.nets.length) (dt : ℚ) (cm : Comm) :
+    TL C (distLoopA C s n dt cm) := by
+  unfold Relsad.Control.distLoopA
+  simp only []
+  have t1 : TL C { s with timer := s.timer.set n (tick (gr s.timer n) dt) } := h.congr (by simp) rfl
+  exact TL.loopCore n _ t1 (fun a => checkSensors C a n cm) (fun a ha => ha.checkSens n cm) _ (fun a ha => tl_childFold w2 n hn a ha)
+
+theorem TL.mgLoop {C : Cfg} {s : St} (h : TL C s) (n : Nat) (hmg : isMg C n = true) (dt : ℚ) : TL C (mgLoop C s n dt) := by
+  unfold Relsad.Control.mgLoop
+  simp only []
+  exact TL.loopCore n _ (tl_mgStart h n hmg _ _) (fun a => checkLinesManually C a n) (fun a ha => ha.checkLines n) (fun a => a) (fun a ha => ha)
+
+theorem TL.mgLoopA {C : Cfg} {s : St} (h : TL C s) (n : Nat) (hmg : isMg C n = true) (dt : ℚ) (cm : Comm) : TL C (mgLoopA C s n dt cm) := by
+  unfold Relsad.Control.mgLoopA
+  simp only []
+  exact TL.loopCore n _ (tl_mgStart h n hmg _ _) (fun a => checkSensors C a n cm) (fun a ha => ha.checkSens n cm) (fun a => a) (fun a ha => ha)
+
+theorem tl_foldl {C : Cfg} {α : Type} (f : St → α → St) (l : List α) (P : α → Prop) (hP : ∀ a ∈ l, P a)
+    (hf : ∀ s a, P a → TL C s → TL C (f s a)) (s : St) (h : TL C s) : TL C (l.foldl f s) := by
+  induction l generalizing s with
+  | nil => exact h
+  | cons a as ih =>
+    simp only [List.foldl_cons]
+    exact ih (fun x hx => hP x (List.mem_cons_of_mem _ hx)) _ (hf s a (hP a List.mem_cons_self) h)
+
+theorem TL.step {C : Cfg} {s : St} (w2 : WF2 C) (h : TL C s) (dt : ℚ) : TL C (step C s dt) := by
+  unfold Relsad.Control.step
+  simp only []
+  refine tl_foldl _ _ (fun n => isMg C n = true) ?_ (fun s' n hn h' => h'.mgLoop n hn dt) _ ?_
+  · intro n hn; exact (List.mem_filter.mp hn).2
+  refine tl_foldl _ _ (fun n => n < C.nets.length) ?_ (fun s' n hn h' => h'.distLoop w2 n hn dt) _ ?_
+  · intro n hn; exact List.mem_range.mp (List.mem_filter.mp hn).1
+  exact tl_foldl _ _ (fun _ => True) (fun _ _ => trivial)
+    (fun s' l _ h' => h'.congr (by rw [(tm_lineUpdate C s' l dt).1]) (tm_lineUpdate C s' l dt).2) _ h
+
+theorem TL.stepA {C : Cfg} {s : St} (w2 : WF2 C) (h : TL C s) (dt : ℚ) (cm : Comm) : TL C (stepA C s dt cm) := by
+  unfold Relsad.Control.stepA
+  simp only []
+  refine tl_foldl _ _ (fun n => isMg C n = true) ?_ (fun s' n hn h' => h'.mgLoopA n hn dt cm) _ ?_
+  · intro n hn; exact (List.mem_filter.mp hn).2
+  refine tl_foldl _ _ (fun n => n < C.nets.length) ?_ (fun s' n hn h' => h'.distLoopA w2 n hn dt cm) _ ?_
+  · intro n hn; exact List.mem_range.mp (List.mem_filter.mp hn).1
+  exact tl_foldl _ _ (fun _ => True) (fun _ _ => trivial)
+    (fun s' l _ h' => h'.congr (by rw [(tm_lineUpdate C s' l dt).1]) (tm_lineUpdate C s' l dt).2) _ h
+
+theorem TL.afterFail {C : Cfg} {s : St} (h : TL C s) (l : Nat) (rep : ℚ) : TL C (lineFail C s l rep) :=
+  h.congr (by rw [(tm_lineFail C s l rep).1]) (tm_lineFail C s l rep).2
+
+theorem NF.stepA {C : Cfg} {s : St} (w : WF C) (w2 : WF2 C) (h : NF C s) (dt : ℚ) (cm : Comm) : NF C (stepA C s dt cm) := by
+  unfold Relsad.Control.stepA
+  simp only []
+  refine nfI_foldl _ _ (fun s' n => nf_mgLoopA C s' n dt cm) _ ?_
+  refine nfI_foldl _ _ (fun s' n => nf_distLoopA C s' n dt cm) _ ?_
+  have key : ∀ (ls : List Nat) (x : St), (∀ l ∈ ls, l < C.lines.length) → NF C x → NF C (ls.foldl (fun s l => lineUpdate C s l dt) x) := by
+    intro ls
+    induction ls with
+    | nil => intro x _ hx; exact hx
+    | cons a as ih =>
+      intro x hin hx
+      simp only [List.foldl_cons]
+      exact ih _ (fun l hl => hin l (List.mem_cons_of_mem _ hl)) (hx.afterUpdate w w2 a (hin a List.mem_cons_self) dt)
+  exact key _ s (fun l hl => List.mem_range.mp hl) h
+
+/-- one increment, manual (`none`) or ICT-based with what the controllers can reach (`some cm`) -/
+def stepM (C : Cfg) (dt : ℚ) (s : St) : Option Comm → St
+  | none => step C s dt
+  | some cm => stepA C s dt cm
+
+theorem calm_stepM {C : Cfg} (w : WF C) (w2 : WF2 C) (x : St) (P B dt : ℚ) (i : Option Comm) (hx : Run C x P B) (hdt : 0 ≤ dt) (hP : 0 ≤ P) (hPB : P ≤ B) :
+    Run C (stepM C dt x i) (max (P - dt) 0) (max P (B - dt)) ∧
+    (B ≤ 0 → ∀ c, c < C.cbLine.length → gb (stepM C dt x i).cbOpen c = false) := by
+  cases i with
+  | none => obtain ⟨a, _, c⟩ := calm_step w w2 x P B dt hx hdt hP hPB; exact ⟨a, c⟩
+  | some cm => obtain ⟨a, _, c⟩ := calm_stepA w w2 x P B dt cm hx hdt hP hPB; exact ⟨a, c⟩
+
+theorem leftAfter_step (M dt : ℚ) (hdt : 0 < dt) (j : ℕ) :
+    max (leftAfter M dt j - dt) 0 ≤ leftAfter M dt (j + 1) ∧
+    max (leftAfter M dt j) (leftAfter M dt j + dt - dt) ≤ leftAfter M dt (j + 1) + dt := by
+  unfold leftAfter
+  push_cast
+  have h1 := le_max_left (M - (j + 1) * dt) 0
+  have h2 := le_max_right (M - (j + 1) * dt) 0
+  rcases le_total (M - j * dt) 0 with h | h
+  · rw [max_eq_right h]
+    exact ⟨max_le (by linarith) h2, max_le (by linarith) (by linarith)⟩
+  · rw [max_eq_left h]
+    exact ⟨max_le (by linarith) h2, max_le (by linarith) (by linarith)⟩
+
+/-- any sequence of calm increments (manual or ICT-based): the timer bound goes down by `dt` per increment -/
+theorem calm_iterM {C : Cfg} (w : WF C) (w2 : WF2 C) (M dt : ℚ) (hdt : 0 < dt) (ins : List (Option Comm)) (j : ℕ) (x : St)
+    (h0 : Run C x (leftAfter M dt j) (leftAfter M dt j + dt)) :
+    Run C (ins.foldl (stepM C dt) x) (leftAfter M dt (j + ins.length)) (leftAfter M dt (j + ins.length) + dt) := by
+  induction ins generalizing j x with
+  | nil => exact h0
+  | cons i is ih =>
+    simp only [List.foldl_cons, List.length_cons]
+    have hq : 0 ≤ leftAfter M dt j := le_max_right _ _
+    obtain ⟨r, _⟩ := calm_stepM w w2 x (leftAfter M dt j) (leftAfter M dt j + dt) dt i h0 (le_of_lt hdt) hq (by linarith)
+    have hs := leftAfter_step M dt hdt j
+    have := ih (j + 1) (stepM C dt x i) (r.weaken hs.1 hs.2)
+    rw [show j + (is.length + 1) = j + 1 + is.length by omega]
+    exact this
+
+theorem calm_finishM {C : Cfg} (w : WF C) (w2 : WF2 C) (x : St) (dt : ℚ) (hdt : 0 < dt) (i1 i2 : Option Comm) (h : Run C x 0 dt) :
+    Run C (stepM C dt (stepM C dt x i1) i2) 0 0 ∧ ∀ c, c < C.cbLine.length → gb (stepM C dt (stepM C dt x i1) i2).cbOpen c = false := by
+  obtain ⟨r1, _⟩ := calm_stepM w w2 x 0 dt dt i1 h (le_of_lt hdt) (le_refl _) (le_of_lt hdt)
+  have r1' : Run C (stepM C dt x i1) 0 0 := r1.weaken (by apply max_le <;> linarith) (by apply max_le <;> linarith)
+  obtain ⟨r2, cl⟩ := calm_stepM w w2 (stepM C dt x i1) 0 0 dt i2 r1' (le_of_lt hdt) (le_refl _) (le_refl _)
+  exact ⟨r2.weaken (by apply max_le <;> linarith) (by apply max_le <;> linarith), cl (le_refl _)⟩
 
 end Relsad.Control
